@@ -1393,7 +1393,7 @@ seq_t dtw_warping_paths_ndim(seq_t *wps,
         rvalue = -1;
     }
 
-    if (settings->max_dist > 0 && rvalue > settings->max_dist) {
+    if (settings->max_dist > 0 && rvalue > pow(settings->max_dist, 2)) {
         // DTWPruned keeps the last value larger than max_dist. Correct for this.
         rvalue = INFINITY;
     }
